@@ -110,6 +110,8 @@ def gen_mixed(rng, focus=None, tier="quick"):
         elif name == "res":
             if nenq:
                 ctl.append(["res", rng.randrange(nenq), rng.choice([0, to / 2, to, 4 * to])])
+                if rng.random() < 0.5:
+                    ctl.append(["cb", rng.randrange(nenq), rng.choice(["ret", "ret", "raise", "partial"])])
         elif name == "join":
             if running and rng.random() < 0.5:
                 ctl.append(["join", None])
@@ -130,6 +132,8 @@ def gen_mixed(rng, focus=None, tier="quick"):
             if k < 0.5:
                 ops.append(_task(rng, to))
                 n += 1
+            elif k < 0.58 and n:
+                ops.append(["cb", rng.randrange(n), rng.choice(["ret", "raise", "partial"])])
             elif k < 0.65 and n:
                 ops.append(["res", rng.randrange(n), rng.choice([0, to / 2, to, 4 * to])])
             elif k < 0.8:
@@ -224,13 +228,47 @@ def gen_restart(rng, tier="quick"):
     return {"family": "mixed", "cfg": cfg, "threads": threads}
 
 
+def gen_tiny(rng):
+    """Two or three threads with one to three operations each: short runs in which a single pre-emption
+    placed anywhere is likely to be tried (races between start/stop/enqueue/join themselves)."""
+    mx = rng.choice([1, 1, 2])
+    cfg = {"max": mx, "min": rng.randrange(0, mx + 1), "qsize": 0, "timeout": rng.choice([0.5, 2.0])}
+    to = cfg["timeout"]
+
+    def task():
+        return rng.choice([["enq", "ret", 0], ["enq", "ret", 0], ["enq", "raise", 0], ["enq", "sleep", to / 2]])
+
+    ctl = []
+    for _ in range(rng.randint(1, 3)):
+        k = rng.random()
+        if k < 0.4:
+            ctl.append(["start"])
+        elif k < 0.55:
+            ctl.append(["stop"])
+        elif k < 0.9:
+            ctl.append(task())
+        else:
+            ctl.append(["join", rng.choice([0, to])])
+    if not any(o[0] == "start" for o in ctl):
+        ctl.insert(rng.randrange(len(ctl) + 1), ["start"])
+    threads = [ctl]
+    for _ in range(rng.choice([1, 1, 2])):
+        ops = [task()]
+        if rng.random() < 0.4:
+            ops.append(rng.choice([task(), ["res", 0, rng.choice([0, to])], ["join", rng.choice([0, to])], ["cb", 0, "ret"]]))
+        threads.append(ops)
+    return {"family": "mixed", "cfg": cfg, "threads": threads}
+
+
 def gen_program(rng, focus=None, tier="quick"):
-    pg = {"C09": 0.15, "C10": 0.5, "C11": 0.1}.get(focus, 0.25)
+    pg = {"C09": 0.15, "C10": 0.4, "C11": 0.1}.get(focus, 0.25)
     k = rng.random()
     if k < pg:
         return gen_growth(rng, tier)
     if k < pg + 0.2:
         return gen_restart(rng, tier)
+    if k < pg + 0.4:
+        return gen_tiny(rng)
     return gen_mixed(rng, focus, tier)
 
 
@@ -248,6 +286,7 @@ def parse(program, log):
     h.tasks = {}
     h.workers = {}
     h.finals = {}
+    h.cbregs = {}
     h.progress = {}
     h.ctor_error = None
     h.end_alive = None
@@ -300,6 +339,12 @@ def parse(program, log):
             if w is not None:
                 w["gets"].append((w["cur"], idx, ev[3]))
                 w["cur"] = None
+        elif kind == "cb.reg":
+            h.cbregs[ev[3]] = {"tid": ev[4], "idx": idx, "calls": []}
+        elif kind == "cb.call":
+            r = h.cbregs.get(ev[3])
+            if r is not None:
+                r["calls"].append((idx, ev[5], ev[6]))
         elif kind == "final":
             h.finals[ev[3]] = (ev[4], ev[5])
             if ev[3] in h.tasks:
@@ -450,6 +495,33 @@ def analyse(program, log, verdict, thread_errors=()):
         if op["name"] in ("start", "stop", "join", "clear") and op["out"] and op["out"].startswith("exc:"):
             v.append(Violation("C11", "lifecycle-raises", "%s:%s" % (op["name"], op["out"]),
                                "%s() raised %s" % (op["name"], op["out"])))
+    # C16 inside the pool: callbacks registered on the futures of pooled tasks
+    per_task = {}
+    for reg, r in h.cbregs.items():
+        per_task.setdefault(r["tid"], []).append((r["idx"], reg, r))
+    for tid, regs in per_task.items():
+        t = h.tasks.get(tid)
+        if t is None:
+            continue
+        regs.sort()
+        end = t["ends"][0] if t["ends"] else INF
+        fin = h.tasks[tid].get("final_idx", INF)
+        for pos, (ridx, reg, r) in enumerate(regs):
+            n = len(r["calls"])
+            if n > 1:
+                v.append(Violation("C16", "callback-once", "twice-in-pool", "callback %s on pooled task %s invoked %d times" % (reg, tid, n)))
+            for cidx, ok, extra_ok in r["calls"]:
+                if not ok:
+                    v.append(Violation("C16", "callback-args", "outcome-in-pool", "callback %s received a wrong (result, exception) pair" % reg))
+                if not extra_ok:
+                    v.append(Violation("C16", "callback-args", "extra-in-pool", "callback %s received another registration's extra" % reg))
+                if cidx < end:
+                    v.append(Violation("C16", "callback-once", "before-finish-in-pool", "callback %s invoked before the task body finished" % reg))
+            # exactly once for a registration that no other registration could have replaced
+            others = [x for x in regs if x[1] != reg]
+            if not others and t["ends"] and n == 0 and fin != INF:
+                # judged at the end of the run only (the epilogue waited for the future)
+                v.append(Violation("C16", "callback-once", "never-in-pool", "callback %s on finished pooled task %s was never invoked" % (reg, tid)))
     if mx == 1:
         ts = [t for t in h.tasks.values() if t["accepted"] and t["begins"]]
         for a in ts:
@@ -577,7 +649,7 @@ def analyse(program, log, verdict, thread_errors=()):
 
 class PoolScenario(object):
     name = "pool"
-    props = ("C09", "C10", "C11")
+    props = ("C09", "C10", "C11", "C16")
 
     def __init__(self, focus=None, tier="quick"):
         self.focus = focus
@@ -625,6 +697,9 @@ class PoolScenario(object):
                 p["worker_retired_after_idle"] = 1
         if len(h.starts) > 1:
             p["restart"] = 1
+        for r in h.cbregs.values():
+            if r["calls"]:
+                p["callback_on_pooled_future_invoked"] = 1
         if getattr(h, "max_running", 0) >= 2:
             p["two_tasks_concurrent"] = 1
         if program.get("family") == "growth" and any(h.progress.values()):
@@ -678,12 +753,12 @@ class PoolScenario(object):
                     # keep later res references meaningful
                     n = sum(1 for o in p["threads"][ti][:oi] if o[0] == "enq")
                     for o in q["threads"][ti]:
-                        if o[0] == "res":
+                        if o[0] in ("res", "cb"):
                             if o[1] == n:
                                 o[1] = 10 ** 6
                             elif o[1] > n:
                                 o[1] -= 1
-                q["threads"][ti] = [o for o in q["threads"][ti] if not (o[0] == "res" and o[1] >= 10 ** 6)]
+                q["threads"][ti] = [o for o in q["threads"][ti] if not (o[0] in ("res", "cb") and o[1] >= 10 ** 6)]
                 yield q
         # simplify the configuration
         cfg = p["cfg"]
